@@ -27,7 +27,8 @@ RULE = ("valid streams of 0-4 chunks (an empty chunk included) x one fault: inva
         "group in a new file, new group / nested group / existing non-cooler group / group inside a plain group / group inside a cooler / "
         "root of a file holding 2 coolers + a plain group with a sub-group, new group beside a root cooler} x ordered / unordered creation; "
         "quick tier: every fault on 4 main destinations, rotating over the others; non-trivial = a fault after at least one written chunk, "
-        "or a destination inside a file that already holds collections; distinct by case hash")
+        "or a destination inside a file that already holds collections; plus whole-table (DataFrame / dict) inputs with one invalid record of each "
+        "kind; distinct by case hash")
 TRUSTED = ["h5py/HDF5 group and attribute semantics are observed (SHA of attrs+datasets per tracked group), modelled only as path -> {format, content id}"]
 ASSUMPTIONS = ["faults are Python exceptions at chunk boundaries (validator, iterator, range check), as the property states"]
 RESIDUE = ["a process killed inside an HDF5 write (torn file) is outside the model",
@@ -226,7 +227,14 @@ def impl_run(case, tpl, workdir):
     else:
         kw["ordered"] = False
         kw["mergebuf"] = case.get("mergebuf", 20_000_000)
-    st, msg = G.guarded(lambda: cooler.create_cooler(uri, G.bins_for(WIDTHS), make_iter(case["items"], case["chunkform"]), **kw), 60)
+    if case.get("form") == "frame":     # a whole table (DataFrame or dict): create_cooler sorts it and hands it to create() as one chunk
+        import pandas as pd
+        tbl = G.make_chunk(case["items"][0], [["count", "int", "int32", "int64"]], "dict")
+        pixels = pd.DataFrame(tbl) if case["chunkform"] == "df" else tbl
+        kw.pop("ordered", None)
+    else:
+        pixels = make_iter(case["items"], case["chunkform"])
+    st, msg = G.guarded(lambda: cooler.create_cooler(uri, G.bins_for(WIDTHS), pixels, **kw), 60)
     after, listing = observe(path, paths)
     opens, _ = G.guarded(lambda: cooler.Cooler(uri).info, 20)
     leftovers = sorted(fn for fn in os.listdir(workdir) if fn != "t.cool")
@@ -245,6 +253,9 @@ def model_expr(case):
     scen, dest = case["scenario"], tuple(case["dest"])
     items = C.lst(["None" if it is None else f"(Some {G.rows_lit(it)})" for it in case["items"]])
     chunks = G.chunks_lit([it for it in case["items"] if it is not None])
+    if case.get("form") == "frame":
+        items = f"[Some (sort_rows {G.rows_lit(case['items'][0])})]"
+        chunks = f"[sort_rows {G.rows_lit(case['items'][0])}]"
     lims = G.lims_lit([["count", "int", "int32", "int64"]])
     fits = f"(fun r : key * list Z => fits_lims {lims} (snd r))"
     val = f"(validate_pixels (V:=list Z) {C.z(NB)} true {C.b(case['symm'])} true false)"
@@ -344,6 +355,18 @@ def gen_cases(ctx):
                 cases.append({"scenario": scen, "dest": list(dest), "mode": mode, "in_scope": scope, "symm": True, "ordered": False,
                               "stream": si, "fault": list(fault) if fault else None, "items": items, "chunkform": "df",
                               "mergebuf": [20_000_000, 2][fi % 2]})
+    # whole-table input (DataFrame / dict): one invalid record of each kind, rows in shuffled order
+    table = [[2, 3, [4]], [0, 1, [1]], [1, 1, [2]], [0, 3, [3]]]
+    k = 0
+    for kind in ("neg", "excess", "tril", "dup", None):
+        for pos in (0, 2, 4):
+            rec = None if kind is None else ([table[pos % 4][0], table[pos % 4][1], [9]] if kind == "dup" else BAD[kind][pos % len(BAD[kind])])
+            rows = table[:pos] + ([rec] if rec else []) + table[pos:]
+            for ti in ((1, 0) if thorough else ((1, 0)[k % 2],)):
+                scen, dest, mode, scope = TARGETS[ti]
+                cases.append({"scenario": scen, "dest": list(dest), "mode": mode, "in_scope": scope, "symm": True, "ordered": True, "form": "frame",
+                              "stream": -1, "fault": ["record", kind, 0, pos, rec] if kind else None, "items": [rows], "chunkform": ["df", "dict"][k % 2]})
+            k += 1
     return cases
 
 
@@ -381,4 +404,5 @@ def replay(ctx, case):
     bad = oracle(case, out)
     for b_ in bad:
         print("violation:", b_)
+    shutil.rmtree(ctx.tmp, ignore_errors=True)
     return not bad
